@@ -670,7 +670,29 @@ STRUCTURAL_CLASSES = (
     "block-signature", "attribute-no-expression", "anon-block-args", "closing-mismatch", "unclosed-tag",
     "unclosed-text-tag", "duplicate-block", "closing-without-opening", "no-starting-keyword", "keyword-mismatch",
     "illegal-ternary", "invalid-control-line", "fragment-not-partial", "unsupported-keyword", "anon-block-in-namespace",
-    "import-star", "named-block-in-def", "named-block-in-call", "unterminated-control")
+    "import-star", "named-block-in-def", "named-block-in-call", "unterminated-control", "deep-nesting")
+
+DEEP_TERMS = 700       # operands of the `+` chain planted by `deep_nesting_faults` (the identifier visitors recurse once or
+                       # more per level; the interpreter's default recursion limit is 1000)
+
+
+def deep_nesting_faults(base, rng):
+    """Python that CPython's parser accepts but that is nested deeper than mako's identifier visitors can recurse:
+    one long `+` chain in every Python-bearing construct.  Ground truth: where the construct begins."""
+    out = []
+    src = base.src
+    for si, site in enumerate(base.py):
+        if not site["plus"]:
+            continue
+        off = rng.choice(site["plus"])
+        operand = "1" if site["label"] in ("sigdef", "sigargs") or site.get("module") else "a"
+        new = _rep(src, off, off + 1, "+ " + (operand + " + ") * DEEP_TERMS)
+        ns = site["node_start"]
+        out.append({"cls": "deep-nesting", "label": site["label"], "src": new, "construct": _truth(new, ns),
+                    "line": line_of(new, ns), "tag": site.get("tag"), "attr": site.get("attr"),
+                    "keyword": site.get("keyword"), "site": si})
+    return out
+
 
 PY_LABELS = ("expr", "filter", "block", "ctl", "sigdef", "sigargs", "attrexpr", "callexpr", "dummyargs", "arglist")
 
